@@ -99,6 +99,120 @@ class IntegralTranslator(pyrx.ClassTranslator):
         return super().call(node, env)
 
 
+def _no_decorators(fn, what):
+    if fn.decorator_list:
+        raise TranslateError("%s is decorated (%s)" % (
+            what, ", ".join(ast.unparse(d) for d in fn.decorator_list)))
+    a = fn.args
+    if a.defaults or a.kw_defaults or a.vararg or a.kwarg or a.kwonlyargs:
+        if what.endswith("wrapper") or what.endswith("_integrator"):
+            raise TranslateError("%s has default / variadic parameters" % what)
+
+
+def _is_doc(st):
+    return isinstance(st, ast.Expr) and isinstance(st.value, ast.Constant) and \
+        isinstance(st.value.value, str)
+
+
+def check_integrals_module(tree):
+    """integrals.py may contain nothing but: docstring, imports, `_integrator`, and the classes
+    JbIntegral, JfIntegral, Integrals -- in particular no module-level statement that rebinds one
+    of these names or patches a class after its definition.  The two integral classes may contain
+    nothing but: docstring, SMALL_NUMBER, __init__, the three integrands, _functionImplementation
+    (any further member, e.g. an `evaluate` / `__call__` override, changes what Jb(x) returns
+    without touching the translated bodies)."""
+    allowed_defs = {"_integrator": ast.FunctionDef, "JbIntegral": ast.ClassDef,
+                    "JfIntegral": ast.ClassDef, "Integrals": ast.ClassDef}
+    seen = set()
+    for st in tree.body:
+        if _is_doc(st) or isinstance(st, (ast.Import, ast.ImportFrom)):
+            continue
+        nm = getattr(st, "name", None)
+        if nm in allowed_defs and isinstance(st, allowed_defs[nm]) and nm not in seen:
+            seen.add(nm)
+            continue
+        raise TranslateError("integrals.py: unexpected module-level statement `%s` (line %d)" % (
+            ast.unparse(st).splitlines()[0][:60], st.lineno))
+    if seen != set(allowed_defs):
+        raise TranslateError("integrals.py: missing %s" % sorted(set(allowed_defs) - seen))
+    members = ["SMALL_NUMBER", "__init__"] + INTEGRANDS + ["_functionImplementation"]
+    for node in tree.body:
+        if not (isinstance(node, ast.ClassDef) and node.name in ("JbIntegral", "JfIntegral")):
+            continue
+        pyrx.check_plain_class(node)
+        got = []
+        for st in node.body:
+            if _is_doc(st):
+                continue
+            if isinstance(st, ast.FunctionDef):
+                got.append(st.name)
+            elif isinstance(st, ast.AnnAssign) and isinstance(st.target, ast.Name):
+                got.append(st.target.id)
+            elif isinstance(st, ast.Assign) and len(st.targets) == 1 and \
+                    isinstance(st.targets[0], ast.Name):
+                got.append(st.targets[0].id)
+            else:
+                raise TranslateError("%s: unexpected class-level statement (line %d)" % (
+                    node.name, st.lineno))
+        if sorted(got) != sorted(members):
+            raise TranslateError("%s: members %s, expected exactly %s" % (
+                node.name, sorted(got), sorted(members)))
+        for st in node.body:
+            if isinstance(st, ast.FunctionDef) and st.name == "_functionImplementation":
+                _no_decorators(st, node.name + "._functionImplementation")
+                for sub in st.body:
+                    if isinstance(sub, ast.FunctionDef):
+                        _no_decorators(sub, node.name + ".wrapper")
+    # Integrals: two attributes, built with adaptive interpolation switched off
+    for node in tree.body:
+        if isinstance(node, ast.ClassDef) and node.name == "Integrals":
+            pyrx.check_plain_class(node)
+            if node.bases or node.keywords:
+                raise TranslateError("Integrals has base classes")
+            fns = [st for st in node.body if isinstance(st, ast.FunctionDef)]
+            other = [st for st in node.body if not (
+                _is_doc(st) or isinstance(st, ast.FunctionDef) or
+                (isinstance(st, ast.AnnAssign) and st.value is None))]
+            if other or [f.name for f in fns] != ["__init__"]:
+                raise TranslateError("Integrals: members changed")
+            init = fns[0]
+            _no_decorators(init, "Integrals.__init__")
+            if [a.arg for a in init.args.args] != ["self"]:
+                raise TranslateError("Integrals.__init__ takes parameters")
+            body = [ast.unparse(st) for st in init.body if not _is_doc(st)]
+            if body != ["self.Jb = JbIntegral(bUseAdaptiveInterpolation=False)",
+                        "self.Jf = JfIntegral(bUseAdaptiveInterpolation=False)"]:
+                raise TranslateError("Integrals.__init__ body changed: %s" % body)
+
+
+def check_spline_fact(src_base):
+    """InterpolatableFunction._interpolate builds the spline with scipy's default end condition
+    (not-a-knot), independent of the object's settings; setExtrapolationType rebuilds through
+    newInterpolationTableFromValues.  (The class itself belongs to C18; these two facts are what
+    makes the shipped copy of the tables equal to the global tables inside the range.)"""
+    cls = None
+    for n in ast.parse(src_base).body:
+        if isinstance(n, ast.ClassDef) and n.name == "InterpolatableFunction":
+            cls = n
+    if cls is None:
+        raise TranslateError("InterpolatableFunction not found")
+    fns = {f.name: f for f in cls.body if isinstance(f, ast.FunctionDef)}
+    it = fns.get("_interpolate")
+    if it is None:
+        raise TranslateError("InterpolatableFunction._interpolate not found")
+    calls = [c for c in ast.walk(it) if isinstance(c, ast.Call) and
+             ast.unparse(c.func) == "CubicSpline"]
+    if len(calls) != 1 or ast.unparse(calls[0]) != \
+            "CubicSpline(xFiltered, fxFiltered, extrapolate=bShouldExtrapolate, axis=0)":
+        raise TranslateError("_interpolate: CubicSpline call changed: %s" % [
+            ast.unparse(c) for c in calls])
+    st = fns.get("setExtrapolationType")
+    if st is None or "self.newInterpolationTableFromValues(self._interpolationPoints, " \
+                     "self._interpolationValues)" not in ast.unparse(st):
+        raise TranslateError("setExtrapolationType no longer rebuilds the table from its nodes")
+    return "Definition SplineEndCondition_not_a_knot : bool := true."
+
+
 def check_integrator(tree):
     """`_integrator(func, a, b)` must be `float(scipy.integrate.quad(func, a, b, limit=N)[0])`;
     returns N (recorded)."""
@@ -108,6 +222,7 @@ def check_integrator(tree):
             fn = st
     if fn is None:
         raise TranslateError("_integrator not found")
+    _no_decorators(fn, "_integrator")
     if [a.arg for a in fn.args.args] != ["func", "a", "b"]:
         raise TranslateError("_integrator signature changed")
     body = [s for s in fn.body if not (isinstance(s, ast.Expr) and
@@ -218,6 +333,7 @@ def dispatcher(tr, cls, tag):
 
 def integrals(src):
     tree = ast.parse(src)
+    check_integrals_module(tree)
     quad_opts = check_integrator(tree)
     out = [pyrx.COQ_PRELUDE,
            "(* generated from src/WallGo/PotentialTools/integrals.py; quad options: %s *)" %
@@ -299,6 +415,8 @@ def constructors(src_integrals, src_base, src_pot=None):
         if [ast.unparse(b) for b in node.bases] != ["InterpolatableFunction"]:
             raise TranslateError("%s no longer derives from InterpolatableFunction" % cls)
         fn, cparams = _ctor_signature(node, cls)
+        if fn.decorator_list:
+            raise TranslateError("%s.__init__ is decorated" % cls)
         body = [st for st in fn.body if not (isinstance(st, ast.Expr) and
                                              isinstance(st.value, ast.Constant))]
         if len(body) != 1 or not (isinstance(body[0], ast.Expr) and
@@ -327,6 +445,7 @@ def constructors(src_integrals, src_base, src_pot=None):
             tag, "; ".join(fw)))
     if src_pot is not None:
         out += potential_init(src_pot, src_base)
+        out.append(check_spline_fact(src_base))
     return "\n".join(out) + "\n"
 
 
@@ -364,6 +483,8 @@ def potential_init(src_pot, src_base):
     if cls is None:
         raise TranslateError("EffectivePotentialNoResum not found")
     fn, params = _ctor_signature(cls, "EffectivePotentialNoResum")
+    if fn.decorator_list:
+        raise TranslateError("EffectivePotentialNoResum.__init__ is decorated")
     if params != ["integrals", "useDefaultInterpolation", "imaginaryOption"]:
         raise TranslateError("EffectivePotentialNoResum.__init__ parameters: %s" % params)
     defaults = [ast.unparse(d) for d in fn.args.defaults]
@@ -447,6 +568,14 @@ class ThermalSum:
                 self.enum = n
         if self.cls is None or self.enum is None:
             raise TranslateError("EffectivePotentialNoResum / EImaginaryOption not found")
+        for st in self.tree.body:
+            if _is_doc(st) or isinstance(st, (ast.Import, ast.ImportFrom)) or \
+                    (isinstance(st, ast.ClassDef) and
+                     st.name in ("EImaginaryOption", "EffectivePotentialNoResum")):
+                continue
+            raise TranslateError("effectivePotentialNoResum.py: unexpected module-level "
+                                 "statement `%s` (line %d)" % (
+                                     ast.unparse(st).splitlines()[0][:60], st.lineno))
         if [ast.unparse(b) for b in self.enum.bases] != ["Enum"]:
             raise TranslateError("EImaginaryOption is not an Enum")
         self.members = []
@@ -718,6 +847,10 @@ class ThermalSum:
             raise TranslateError("potentialOneLoopThermal not found")
         if [a.arg for a in fn.args.args] != ["self", "bosons", "fermions", "temperature"]:
             raise TranslateError("potentialOneLoopThermal signature changed")
+        if fn.decorator_list or fn.args.defaults or fn.args.vararg or fn.args.kwarg or \
+                fn.args.kwonlyargs:
+            raise TranslateError("potentialOneLoopThermal is decorated / has default parameters")
+        pyrx.check_plain_class(self.cls)
         env = {
             "bosons": Val("T", None, [Val("V", "massSqB"), Val("V", "nB"), Val("N", ""),
                                       Val("N", "")]),
